@@ -258,8 +258,9 @@ func (e *Exec) loadFrom(st *State, loc *Loc, useOld bool) Val {
 		}
 		v.T = append(v.T, term)
 		// references found in the entry heap predate every allocation of this path
-		if !useOld && l.Sort == SInt && refLeaf(loc.Typ, l) && !st.impure[k] && !strings.Contains(term, "|q:") {
-			if a == e.entryArrName(k) {
+		if !useOld && l.Sort == SInt && refLeaf(loc.Typ, l) && !strings.Contains(term, "|q:") {
+			// any reference found in the heap is older than every allocation this path makes later
+			if a == e.entryArrName(k) && !st.impure[k] {
 				st.assumeOnce(app("<", term, "BASE"))
 			} else if len(st.fresh) <= 40 {
 				alts := []string{app("<", term, "BASE")}
@@ -273,6 +274,8 @@ func (e *Exec) loadFrom(st *State, loc *Loc, useOld bool) Val {
 	if _, isSlice := under(loc.Typ).(*types.Slice); isSlice && len(v.T) == 4 && !useOld && !strings.Contains(v.T[2], "|q:") {
 		st.assumeOnce(app("bvule", v.T[2], bvLitI(1<<40, 64)))
 		st.assumeOnce(app("bvule", v.T[2], v.T[3]))
+		st.assumeOnce(app("bvule", v.T[3], bvLitI(1<<41, 64)))
+		st.assumeOnce(app("bvule", v.T[1], bvLitI(1<<41, 64)))
 	}
 	if len(v.T) == 2 && isProtoOneof(loc.Typ) && !useOld {
 		st.assume(tImp(tNot(tEq(v.T[0], "0")), tNot(tEq(v.T[1], "0"))))
